@@ -240,8 +240,40 @@ def rule_decode_header(ctx):
         raise AnalysisError('long tag termination test not found')
     acc = intexpr.accept_set(brk[0].test, 'integerTag', range(256), resolver=res)
     ctx.ob('W.dec', f, 'long tag ends at the first octet with bit 8 clear', acc == set(range(0, 128)), 'stops on {%s}' % _fmt(acc), node=brk[0])
-    acc7 = [norm(n) for n in ast.walk(hi[0]) if isinstance(n, ast.AugAssign)]
-    ok = 'tagId <<= 7' in acc7 and any(a.replace('(', '').replace(')', '') == 'tagId |= integerTag & 127' for a in acc7)
+    # one round of the long-tag loop as a table: tag number' = tag number * 128 + (octet & 127)
+    from sa import region
+    acc7 = []
+    ok = False
+    for lw in [w for w in ast.walk(hi[0]) if isinstance(w, ast.While)]:
+        idx = [i for i, st_ in enumerate(lw.body) if isinstance(st_, ast.Assign) and isinstance(st_.targets[0], ast.Name) and
+               isinstance(st_.value, ast.Call) and isinstance(st_.value.func, ast.Name) and st_.value.func.id in ('ord', 'oct2int')]
+        if not idx:
+            continue
+        ov = lw.body[idx[0]].targets[0].id
+        accv = [norm(n.target) for n in ast.walk(lw) if isinstance(n, ast.AugAssign) and isinstance(n.op, (ast.LShift, ast.BitOr, ast.Mult))] + \
+               [norm(n.targets[0]) for n in ast.walk(lw) if isinstance(n, ast.Assign) and isinstance(n.value, ast.BinOp) and
+                any(isinstance(x, ast.BinOp) and isinstance(x.op, (ast.LShift, ast.Mult)) for x in ast.walk(n.value))]
+        accv = [v for v in accv if v != ov]
+        if not accv:
+            continue
+        tv = accv[0]
+
+        def stop(st_, env):
+            return 'end' if isinstance(st_, ast.If) and any(isinstance(x, ast.Break) for x in ast.walk(st_)) else None
+        try:
+            bad = None
+            for t0 in (0, 1, 5, 127, 300, 16383):
+                for o in list(range(0, 256, 17)) + [127, 128, 255]:
+                    lab, env = region.walk(lw.body[idx[0] + 1:], {tv: t0, ov: o}, stop)
+                    if env.get(tv) != (t0 << 7) | (o & 0x7f):
+                        bad = (t0, o, env.get(tv))
+                        break
+                if bad:
+                    break
+            ok = bad is None
+            acc7 = ['%s after one round from %s and octet %s: %s' % ((tv,) + bad)] if bad else ['%s = %s * 128 + (octet & 127)' % (tv, tv)]
+        except region.Undecided as x:
+            raise AnalysisError('long-tag round not a pure table: %s' % x)
     ctx.ob('W.dec', f, 'long tag accumulates 7 bits per octet, most significant first', ok, str(acc7))
     # ---- length octet partition
     ln = _find_if(f, lambda n: isinstance(n.test, ast.Compare) and norm(n.test.left) == 'firstOctet' and
